@@ -82,6 +82,9 @@ func fieldText(f *Field) string {
 	if f.StdDur {
 		opts = append(opts, "(gogoproto.stdduration) = true")
 	}
+	if f.CastKey != "" {
+		opts = append(opts, fmt.Sprintf("(gogoproto.castkey) = %q", f.CastKey))
+	}
 	if f.CastType != "" {
 		opts = append(opts, fmt.Sprintf("(gogoproto.casttype) = %q", f.CastType))
 	}
